@@ -254,6 +254,29 @@ def search(rec, ctx):
         for pre in ("", "x", "(", "x =", "pass", "if x: pass", "x = 1;"):
             check(rec, {"src": pre + tail, "stream": "dangling-continuation", "near": True, "mode_also": "eval"})
 
+    # ---- (c5) indentation structures: a dedent must land on an ENCLOSING level (a column some closed block used does not count)
+    from ..gen import lex
+
+    def indents(rnd):
+        if rnd.random() < 0.5:
+            src = lex.indentation_program(rnd)
+        else:
+            # two sibling blocks; the second dedents onto a column only the first one used
+            c1, c2, c3 = sorted(rnd.sample(range(1, 13), 3))
+            first = rnd.choice([c2, c3])
+            src = f"if a:\n{' ' * first}x = 1\nif b:\n{' ' * c1}if c:\n{' ' * (c3 + 2)}y = 2\n{' ' * rnd.choice([first, c2, c3])}z = 3\n"
+        if "\t" in src or "\f" in src:
+            return  # (tab/space ambiguity is stream (d) and finding D21)
+        check(rec, {"src": src, "stream": "indentation-structure", "near": True})
+
+    drive(st.randoms(use_true_random=False), indents, ctx.budget(6000, 100000), ctx.hseed("indents"))
+
+    # ---- (c6) type-parameter forms: what 3.12 takes and what only later versions take (defaults, PEP 696)
+    TP = ["T", "T: int", "T: (int, str)", "*Ts", "**P", "T = int", "T: int = str", "*Ts = int", "*Ts = *tuple[()]", "**P = int", "**P = [int]", "T, *Ts = (int, str)", "T = int, U", "*Ts: int", "**P: int", "T:", "= int", "T,, U", "*", "**"]
+    for tp in ctx.shard(TP):
+        for tmpl in ("def f[{P}](): pass\n", "class A[{P}]: pass\n", "type X[{P}] = int\n", "async def g[{P}](a): pass\n", "class B[{P}](C): pass\n"):
+            check(rec, {"src": tmpl.replace("{P}", tp), "stream": "type-parameter-forms", "near": True})
+
     # ---- (d) tab/space ambiguity (expected: finding D21) ------------------------------------------
     def tabs(rnd):
         body = rnd.choice(["a", "pass", "x = 1"])
